@@ -80,7 +80,7 @@ def perturb(r, pl, files, total, stats, calm=False):
         g = r.choice([lo, hi - 1, r.randint(lo, hi - 1)])
         toks.append("F%d" % g); stats["byte_flips"] += 1
     if r.random() < 0.12:
-        toks.append("B%d" % r.randrange(np_)); stats["bad_expected"] += 1
+        toks.append("B%d:%d" % (r.randrange(np_), r.choice([0, 7, 19, 19]))); stats["bad_expected"] += 1
     return toks
 
 
@@ -131,7 +131,19 @@ def ops_pattern(r, np_, stats):
             out.append(r.choice("Ww"))
     if r.random() < 0.7:
         out += ["C", "W"]
-    return out
+    # outside the property's quantifier (and a confirmed internal_error, see the report): hash_check(quick) and
+    # hash_check(full) issued back to back while the first one's error notification is still in the scheduler.
+    # Keep the scheduler tick a client's main loop would run between two checks of different kind.
+    res, last = [], None
+    for o in out:
+        if o in ("C", "Q"):
+            if last is not None and last != o:
+                res.append("K")
+            last = o
+        elif o[0] in "KWwXx":
+            last = None
+        res.append(o)
+    return res
 
 
 def fmt(pl, seed, files, pert, ops):
@@ -156,6 +168,8 @@ HAND = [
     "2048 4 4097:f | T0:4096 | O C W",
     "2048 4 4097:f | E0:1 F4096 | O C W",
     "2048 4 4096:f | B1 | O C w",
+    "2048 4 4096:f | B0:19 | O C W",
+    "2048 4 4096:f | B1:0 | O C W",
     "1100 5 1000:f 100:f 1100:f 50:f | M3 | O C D2 D0 S C D1 X O C W",
     "1100 5 1000:f 100:f 1100:f 50:f | U3:l | O C D0 D1 K W",
     "1100 5 1000:f 100:f 1100:f 50:f | U0:l | O C K",
@@ -191,14 +205,14 @@ def gen(seed, tier):
                 cases.append(l); stats["corpus"] += 1
     for h in HAND:
         cases.append(h); stats["hand"] += 1
-    n = 500 if tier == "quick" else 5000
+    n = 3000 if tier == "quick" else 30000
     for _ in range(n):
         pl, files, total = layout(r)
         np_ = (total + pl - 1) // pl
         pert = perturb(r, pl, files, total, stats, calm=r.random() < 0.5)
         cases.append(fmt(pl, r.randint(1, 9), files, pert, ops_pattern(r, np_, stats)))
     # stop/close after k pieces for EVERY k of a generated torrent (deliveries in a shuffled order)
-    for _ in range(25 if tier == "quick" else 150):
+    for _ in range(100 if tier == "quick" else 600):
         pl, files, total = layout(r, max_pieces=7)
         np_ = (total + pl - 1) // pl
         pert = perturb(r, pl, files, total, stats, calm=True)
@@ -230,6 +244,8 @@ def parse_snap(s):
 
 def oracle(case, full):
     """Property C09 evaluated on ONE implementation output line -> list of (class, text)."""
+    if full.startswith("ERR:internal") and "HashTorrent::start() call failed" in full:
+        return [("recheck-before-notification", "internal_error from hash_check issued while the previous check's notification was pending: " + full[:200])]
     if full.startswith("CRASH") or full.startswith("ERR:") or full.startswith("MISSING"):
         return [("crash", "the library crashed, threw internal_error or hung: " + full[:200])]
     if full.startswith("REJECT") or full.startswith("BADCASE"):
@@ -257,10 +273,13 @@ def oracle(case, full):
                 bad.append(("not-exact", "completed check reports %s, the valid pieces on disk are %s" % (b, ssl)))
         if o[0] in "CQ" and prev is not None and prev.get("k") == "0" and prev.get("c") == "0" and prev.get("o") == "1":
             last_check = o[0]
+        if sn.get("k") == "0" and any(sn.get(k) != "0" for k in ("rf", "bl", "mp", "hq")):
+            bad.append(("leak-after-stop", "after %s (not checking): references/blocking/mapped/queued = %s/%s/%s/%s" % (
+                o, sn.get("rf"), sn.get("bl"), sn.get("mp"), sn.get("hq"))))
         if o[0] in "SsXx":
-            if any(sn.get(k) != "0" for k in ("rf", "bl", "mp", "hq")) or sn.get("k") != "0" or sn.get("d") != "0":
-                bad.append(("leak-after-stop", "after %s: references/blocking/mapped/queued = %s/%s/%s/%s checking=%s timer=%s" % (
-                    o, sn.get("rf"), sn.get("bl"), sn.get("mp"), sn.get("hq"), sn.get("k"), sn.get("d"))))
+            was_checking = prev is not None and prev.get("k") == "1"
+            if sn.get("k") != "0" or (sn.get("d") != "0" and (was_checking or o[0] in "Xx")):
+                bad.append(("leak-after-stop", "after %s: checking=%s, completion timer pending=%s" % (o, sn.get("k"), sn.get("d"))))
         if o[0] in "Ww" and last_check == "C" and (sn.get("k") != "0" or sn.get("hq") != "0"):
             bad.append(("no-termination", "check still running after every queued piece was answered"))
         if o[0] in "SsXx":
